@@ -537,6 +537,44 @@ def run_ss(c, case, s0):
         except Exception:
             xref.append(None)
     out['xref'] = xref
+    # initial-state (zero-input) response by superposition of lcapy's own circuit analysis: response of the circuit as given
+    # (sources + initial conditions) minus the response of the same netlist with the initial conditions removed (zero state)
+    try:
+        has_ic = any(bool(getattr(e.cpt, 'has_ic', False)) for e in c.elements.values())
+        if has_ic:
+            lines0 = []
+            for nm, e in c.elements.items():
+                line = str(e).split(';')[0].strip()
+                if e.is_inductor or e.is_capacitor:
+                    toks = line.split()
+                    line = ' '.join(toks[:4])
+                lines0.append(line)
+            c0 = Circuit()
+            for l in lines0:
+                c0.add(l)
+            out['zero_state_lines'] = lines0
+            ref0 = []
+            for yn in out['y']:
+                try:
+                    if yn.startswith('v_'):
+                        full, zs = c[yn[2:-3]].V(lcapy.s), c0[yn[2:-3]].V(lcapy.s)
+                    else:
+                        full, zs = c[yn[2:-3]].I(lcapy.s), c0[yn[2:-3]].I(lcapy.s)
+                    ref0.append(at(sp.sympify(full.sympy) - sp.sympify(zs.sympy), {'s': s0}))
+                except Exception:
+                    ref0.append(None)
+            out['yref0'] = ref0
+    except Exception as e:
+        out['yref0_error'] = type(e).__name__ + ': ' + str(e)[:100]
+    # the initial value each state variable has in the netlist (by the NAME of the state, not by position)
+    xic = []
+    for xn in out['x']:
+        try:
+            e = c.elements[xn[2:-3]]
+            xic.append(rs(sp.sympify((e.cpt.i0 if xn.startswith('i_') else e.cpt.v0).sympy)))
+        except Exception:
+            xic.append(None)
+    out['x_ic'] = xic
     # natural frequencies from circuit analysis: determinant of the MNA matrix of the Laplace-domain analysis
     try:
         subs_ = c.sub
